@@ -106,6 +106,8 @@ pub struct Srv {
     pub gate: Arc<Semaphore>,
     /// when `Listener::listen` returned
     pub returned: Arc<Mutex<Option<Instant>>>,
+    /// kernel thread id of the server's runtime thread
+    pub tid: Arc<Mutex<Option<u64>>>,
 }
 
 pub fn free_port() -> u16 {
@@ -136,8 +138,11 @@ impl Srv {
         let seen: Seen = Arc::new(Mutex::new(vec![]));
         let gate = Arc::new(Semaphore::new(0));
         let returned = Arc::new(Mutex::new(None));
+        let tid = Arc::new(Mutex::new(None));
+        let tid2 = tid.clone();
         let (o2, stop2, seen2, gate2, ret2) = (o.clone(), stop.clone(), seen.clone(), gate.clone(), returned.clone());
         std::thread::spawn(move || {
+            *tid2.lock().unwrap() = std::fs::read_link("/proc/thread-self").ok().and_then(|p| p.file_name().and_then(|n| n.to_str().and_then(|s| s.parse().ok())));
             let rt = tokio::runtime::Builder::new_current_thread().enable_all().build().unwrap();
             rt.block_on(async move {
                 let mut l = build_listener(&o2, &seen2, &gate2);
@@ -148,7 +153,16 @@ impl Srv {
             rt.shutdown_timeout(Duration::from_millis(0));
         });
         assert!(wait_listening(port), "listener did not come up");
-        Srv { port, stop, seen, gate, returned }
+        Srv { port, stop, seen, gate, returned, tid }
+    }
+    /// CPU time (user + system) consumed so far by the server's thread, in milliseconds
+    pub fn cpu_ms(&self) -> u64 {
+        let Some(tid) = *self.tid.lock().unwrap() else { return 0 };
+        let Ok(stat) = std::fs::read_to_string(format!("/proc/self/task/{tid}/stat")) else { return 0 };
+        let rest = stat.rsplit_once(") ").map_or("", |x| x.1);
+        let f: Vec<&str> = rest.split_whitespace().collect();
+        let ticks: u64 = f.get(11).and_then(|s| s.parse().ok()).unwrap_or(0) + f.get(12).and_then(|s| s.parse().ok()).unwrap_or(0);
+        ticks * 10
     }
     pub fn returned_at(&self) -> Option<Instant> { *self.returned.lock().unwrap() }
 }
@@ -338,11 +352,16 @@ fn optn(s: &str) -> Option<u64> { if s == "none" { None } else { Some(s.parse().
 const SLACK_MS: u64 = 350;
 
 fn app_config(port: u16, max_len: u64, expiry: u64, secret: Option<&str>, timeout_s: u64, proxy: bool) -> passage::config::Config {
+    app_config_full(port, max_len, expiry, secret, timeout_s, if proxy { Some((true, true)) } else { None }, None)
+}
+
+fn app_config_full(port: u16, max_len: u64, expiry: u64, secret: Option<&str>, timeout_s: u64, proxy: Option<(bool, bool)>, limit: Option<usize>) -> passage::config::Config {
     use passage::config as c;
     c::Config {
+        rate_limiter: limit.map(|limit| c::RateLimiter { duration: 3600, limit }),
         address: format!("127.0.0.1:{port}"), timeout: timeout_s, max_packet_length: max_len, auth_cookie_expiry: expiry,
         auth_secret: secret.map(|s| s.to_string()),
-        proxy_protocol: if proxy { Some(c::ProxyProtocol { allow_v1: true, allow_v2: true }) } else { None },
+        proxy_protocol: proxy.map(|(allow_v1, allow_v2)| c::ProxyProtocol { allow_v1, allow_v2 }),
         adapters: c::Adapters {
             authentication: c::AuthenticationAdapter::Fixed(c::FixedAuthentication::default()),
             discovery: c::DiscoveryAdapter::Fixed(c::FixedDiscovery { targets: vec![] }),
@@ -578,8 +597,13 @@ fn c15_case(req: &str) -> Case {
         if let IpAddr::V4(v) = ip { if v.octets()[0] == 127 { return v.octets()[3] as usize; } }
         match ids.iter().position(|x| *x == ip) { Some(i) => 10 + i, None => { ids.push(ip); 9 + ids.len() } }
     };
+    let via_app = kvs(req, "via").as_deref() == Some("app");
     rt().block_on(async {
-        let srv = Srv::start(&SrvOpts { proxy: if proxy { Some((v1, v2ok)) } else { None }, limiter: limit, timeout: Duration::from_secs(2), secret: Some(b"s3cret".to_vec()), ..Default::default() });
+        // either the Listener built by hand, or the application entry point with a configuration value
+        let srv = if via_app { None } else { Some(Srv::start(&SrvOpts { proxy: if proxy { Some((v1, v2ok)) } else { None }, limiter: limit, timeout: Duration::from_secs(2), secret: Some(b"s3cret".to_vec()), ..Default::default() })) };
+        let port = match &srv { Some(s) => s.port, None => start_app(app_config_full(free_port(), 10_000, 21_600, None, 2, if proxy { Some((v1, v2ok)) } else { None }, limit)) };
+        let no_seen: Seen = Arc::new(Mutex::new(vec![]));
+        let seen_log = srv.as_ref().map_or(no_seen, |s| s.seen.clone());
         let mut reference = limit.map(|n| RateLimiter::<IpAddr>::new(Duration::from_secs(3600), n));
         let mut conns = vec![];
         let mut observed = vec![];
@@ -592,15 +616,16 @@ fn c15_case(req: &str) -> Case {
             let eff: Option<IpAddr> = match &class { HClass::Source(ip) => Some(*ip), HClass::NoAddr => Some(IpAddr::V4(peer_ip)), HClass::Invalid => None };
             conns.push(format!("{peer}/{}", match &class { HClass::Source(ip) => format!("s{}", id_of(*ip)), HClass::NoAddr => "n".into(), HClass::Invalid => "i".into() }));
             let want = match eff { None => "C".to_string(), Some(ip) => if reference.as_mut().is_none_or(|r| r.enqueue(ip)) { format!("S{}", id_of(ip)) } else { "R".to_string() } };
-            let seen_before = srv.seen.lock().unwrap().len();
-            let mut c = Cli::connect(srv.port, Some(peer_ip)).await.expect("connect");
+            let seen_before = seen_log.lock().unwrap().len();
+            let mut c = Cli::connect(port, Some(peer_ip)).await.expect("connect");
             c.phase = ClientPhase::Status;
             c.raw(&first).await;
             let got = match c.recv(Duration::from_millis(700)).await {
                 Recv::Packet(CbPacket::StatusResponse(_)) => {
-                    let seen = srv.seen.lock().unwrap();
+                    let seen = seen_log.lock().unwrap();
                     let addr = seen[seen_before..].iter().find_map(|s| s.strip_prefix("status:")).map(|s| s.parse::<IpAddr>().unwrap());
-                    match addr { Some(ip) => format!("S{}", id_of(ip)), None => "S?".into() }
+                    // through the application the adapters are the configured ones: the address they see is not observable
+                    match (addr, eff) { (Some(ip), _) => format!("S{}", id_of(ip)), (None, Some(ip)) if via_app => format!("S{}", id_of(ip)), (None, None) if via_app => "S!".into(), _ => "S?".into() }
                 }
                 Recv::Closed => { if c.bytes_in > 0 { why.push(format!("connection {k}: closed after {} bytes were sent to it", c.bytes_in)); } if class == HClass::Invalid { "C".into() } else { "R".into() } }
                 Recv::Timeout => "H".into(),
@@ -610,7 +635,7 @@ fn c15_case(req: &str) -> Case {
             observed.push(got);
         }
         // the address a cookie is bound to and that the adapters see during a login
-        if kvs(req, "login").as_deref() == Some("1") {
+        if let (Some("1"), Some(srv)) = (kvs(req, "login").as_deref(), &srv) {
             let mut c = Cli::connect(srv.port, Some(Ipv4Addr::new(127, 0, 0, 3))).await.expect("connect");
             // the same announced source through whichever header version is enabled
             let hdr = header_menu(if v1 { 2 } else { 5 });
@@ -628,13 +653,13 @@ fn c15_case(req: &str) -> Case {
                 }
             }
         }
-        srv.stop.cancel();
-        let request = format!("c15.run proxy={} allow={allow} limit={} hdrs={} login={} conns={}", u8::from(proxy), limit.map_or("off".into(), |n| n.to_string()),
+        if let Some(srv) = &srv { srv.stop.cancel(); }
+        let request = format!("c15.run proxy={} allow={allow} limit={} via={} hdrs={} login={} conns={}", u8::from(proxy), limit.map_or("off".to_string(), |n| n.to_string()), if via_app { "app" } else { "listener" },
             kvs(req, "hdrs").unwrap(), kvs(req, "login").unwrap_or_else(|| "0".into()), conns.join(";"));
         let refused = observed.iter().filter(|o| *o == "R").count();
         let closed = observed.iter().filter(|o| *o == "C").count();
         Case { request, observed: observed.join(","), oracle: if why.is_empty() { None } else { Some(why.join("; ")) },
-            class: format!("proxy={} limiter={} refused={} unserved={}", u8::from(proxy), if limit.is_some() { "on" } else { "off" }, if refused > 0 { "some" } else { "none" }, if closed > 0 { "some" } else { "none" }) }
+            class: format!("{} proxy={} limiter={} refused={} unserved={}", if via_app { "app" } else { "listener" }, u8::from(proxy), if limit.is_some() { "on" } else { "off" }, if refused > 0 { "some" } else { "none" }, if closed > 0 { "some" } else { "none" }) }
     })
 }
 
@@ -649,7 +674,7 @@ pub fn run_c15(a: &Args) {
         // a few hot headers so budgets are exhausted, bad ones in between
         let hot: Vec<usize> = (0..3).map(|_| rng.below(MENU as u64) as usize).collect();
         let hdrs: Vec<String> = (0..n).map(|_| format!("{}/{}", rng.range(1, 3), if rng.chance(2, 3) { *rng.pick(&hot) } else { rng.below(MENU as u64) as usize })).collect();
-        reqs.push(format!("c15.run proxy={} allow={allow} limit={limit} hdrs={} login={}", u8::from(proxy), hdrs.join(";"), u8::from(rng.chance(1, 3))));
+        reqs.push(format!("c15.run proxy={} allow={allow} limit={limit} via={} hdrs={} login={}", u8::from(proxy), if rng.chance(1, 4) { "app" } else { "listener" }, hdrs.join(";"), u8::from(rng.chance(1, 3))));
     }
     let cases = retry_failed(par_cases(a.seed, reqs.len(), |i, _| c15_case(&reqs[i])), &reqs, c15_case);
     write_cases(&a.out, &cases).expect("write cases");
@@ -676,6 +701,8 @@ async fn stall(port: u16, proxy: bool, stage: &str) -> Option<Cli> {
         "enc" => { c.login(2, None, Stage::EncRequest, Duration::from_millis(800)).await; }
         "no-keepalive" => { c.login(2, None, Stage::Configuration, Duration::from_millis(1500)).await; }
         "junk" => { c.raw(&vec![0xffu8; 4096]).await; }
+        // half a frame, then the client closes its sending side and keeps the socket
+        "half-closed" => { let f = frame(&b::handshake(767, b"localhost", 25565, 2)); c.raw(&f[..f.len() / 2]).await; let _ = c.s.shutdown().await; }
         _ => {}
     }
     Some(c)
@@ -691,11 +718,16 @@ fn c16_case(req: &str) -> Case {
         let mut held = vec![];
         for s in &stages { held.push(stall(srv.port, proxy, s).await); }
         tokio::time::sleep(Duration::from_millis(50)).await;
+        // with every other connection stalled the server has nothing to do: CPU it burns now is taken from everyone else
+        let cpu0 = srv.cpu_ms();
+        tokio::time::sleep(Duration::from_millis(300)).await;
+        let burnt = srv.cpu_ms().saturating_sub(cpu0);
         let mut w = Cli::connect(srv.port, Some(Ipv4Addr::new(127, 0, 0, 1))).await.expect("connect");
         if proxy { w.raw(&header_menu(1)).await; }
         let lat = w.status(Duration::from_millis(SERVE_BOUND_MS)).await;
         let observed = if lat.is_some() { "served" } else { "blocked" };
-        let oracle = if lat.is_some() { None } else { Some(format!("a well-behaved client got no status reply within {SERVE_BOUND_MS} ms while {} other connection(s) were stalled at [{st}]", stages.len())) };
+        let mut oracle = if lat.is_some() { None } else { Some(format!("a well-behaved client got no status reply within {SERVE_BOUND_MS} ms while {} other connection(s) were stalled at [{st}]", stages.len())) };
+        if oracle.is_none() && burnt >= 200 { oracle = Some(format!("the server thread burnt {burnt} ms of CPU in a 300 ms window in which every connection was stalled at [{st}]: a stalled client keeps the server busy, delaying every other client in proportion to the number of such clients")); }
         srv.stop.cancel();
         drop(held);
         let model_stages: Vec<&str> = stages.iter().map(|s| if *s == "pre" || *s == "in" { *s } else { "post" }).collect();
@@ -712,7 +744,7 @@ pub fn run_c16(a: &Args) {
     let mut rng = Rng::new(a.seed);
     for _ in 0..a.cases {
         let proxy = rng.chance(2, 3);
-        let menu: Vec<&str> = if proxy { vec!["pre", "in", "accepted", "mid-frame", "mid-login", "enc", "no-keepalive", "junk"] } else { vec!["accepted", "mid-frame", "mid-login", "enc", "no-keepalive", "junk"] };
+        let menu: Vec<&str> = if proxy { vec!["pre", "in", "accepted", "mid-frame", "mid-login", "enc", "no-keepalive", "junk", "half-closed"] } else { vec!["accepted", "mid-frame", "mid-login", "enc", "no-keepalive", "junk", "half-closed"] };
         let k = rng.below(5) as usize;
         let st: Vec<&str> = (0..k).map(|_| *rng.pick(&menu)).collect();
         reqs.push(format!("c16.run proxy={} limiter={} stalled={}", u8::from(proxy), u8::from(rng.chance(1, 2)), if st.is_empty() { "-".to_string() } else { st.join(",") }));
@@ -732,8 +764,9 @@ fn c17_case(req: &str) -> Case {
     let st = kvs(req, "stages").unwrap();
     let stages: Vec<String> = if st == "-" { vec![] } else { st.split(',').map(String::from).collect() };
     let open_after = kvn(req, "open_after");
+    let timeout_ms = kvs(req, "timeout").and_then(|s| s.parse().ok()).unwrap_or(C17_TIMEOUT_MS);
     rt().block_on(async {
-        let srv = Srv::start(&SrvOpts { timeout: Duration::from_millis(C17_TIMEOUT_MS), gated: true, secret: Some(b"s3cret".to_vec()), ..Default::default() });
+        let srv = Srv::start(&SrvOpts { timeout: Duration::from_millis(timeout_ms), gated: true, secret: Some(b"s3cret".to_vec()), ..Default::default() });
         let ready = Arc::new(Semaphore::new(0));
         let go = Arc::new(Semaphore::new(0));
         let mut tasks = vec![];
@@ -741,7 +774,7 @@ fn c17_case(req: &str) -> Case {
             let (s, ready, go, port) = (s.clone(), ready.clone(), go.clone(), srv.port);
             tasks.push(tokio::spawn(async move {
                 let mut c = Cli::connect(port, None).await.expect("connect");
-                let long = Duration::from_millis(3 * C17_TIMEOUT_MS);
+                let long = Duration::from_millis(3 * timeout_ms);
                 match s.as_str() {
                     // connected, says nothing: ends by the connection timeout
                     "accepted" => { ready.add_permits(1); let t = c.wait_close(long).await; (false, false, t.map(|_| Instant::now())) }
@@ -774,7 +807,7 @@ fn c17_case(req: &str) -> Case {
             if let Some(d) = done { if last_done.is_none_or(|l| d > l) { last_done = Some(d); } }
         }
         // listen() must return, and only after the last session finished
-        let deadline = t_stop + Duration::from_millis(C17_TIMEOUT_MS + 1500);
+        let deadline = t_stop + Duration::from_millis(timeout_ms + 1500);
         while srv.returned_at().is_none() && Instant::now() < deadline { tokio::time::sleep(Duration::from_millis(10)).await; }
         let ret = srv.returned_at();
         let in_flight = !stages.is_empty();
@@ -782,9 +815,9 @@ fn c17_case(req: &str) -> Case {
         if !all_ready { why.push("set-up: not every in-flight client reached its stage".into()); }
         if late_served > 0 { why.push(format!("{late_served} connection(s) opened after the stop request were served")); }
         if early { why.push("listen() returned while in-flight sessions were still running".into()); }
-        if ret.is_none() { why.push(format!("listen() had not returned {} ms after the stop request", C17_TIMEOUT_MS + 1500)); }
+        if ret.is_none() { why.push(format!("listen() had not returned {} ms after the stop request", timeout_ms + 1500)); }
         let observed = format!("late={late_served} early_return={} returned={}", u8::from(early), u8::from(ret.is_some()));
-        let request = format!("c17.run inflight={} late={late} stages={st} open_after={open_after}", stages.len());
+        let request = format!("c17.run inflight={} late={late} stages={st} open_after={open_after} timeout={timeout_ms}", stages.len());
         Case { request, observed, oracle: if why.is_empty() { None } else { Some(why.join("; ")) }, class: format!("inflight={} late={} backend={}", stages.len().min(3), late.min(2), if open_after > 0 { "slow" } else { "prompt" }) }
     })
 }
@@ -837,6 +870,8 @@ pub fn run_c17(a: &Args) {
     let mut reqs: Vec<String> = read_corpus(&a.corpus).into_iter().filter(|l| l.starts_with("c17.")).collect();
     let mut rng = Rng::new(a.seed);
     reqs.push(format!("c17.race trials={}", if a.thorough { 64 } else { 16 }));
+    // a session that legitimately outlasts the DEFAULT connection timeout (10 s) under a longer configured one
+    reqs.push("c17.run inflight=2 late=1 stages=backend,mid-login open_after=11500 timeout=15000".into());
     for _ in 0..a.cases {
         let k = rng.below(5) as usize;
         let st: Vec<&str> = (0..k).map(|_| *rng.pick(&["accepted", "mid-login", "backend", "backend", "transfer"])).collect();
